@@ -353,6 +353,63 @@ var whereAtoms = []string{
 	`m.GoVersion().GreaterEqThan("1.18")`, `m.GoVersion().LessThan("1.30")`, `m.GoVersion().Eq("1.22")`, `m.Deadcode()`, `m["x"].Contains("$y")`,
 	`m["x"].Filter(isZeroInt)`, `m["x"].Filter(startsWithA)`, `m["$$"].Node.Parent().Is("ExprStmt")`, `isNum(m["x"])`, `m["x"].Text.Matches("(?i)a")`,
 	`m["x"].Type.Is("[]$elem")`, `m["x"].Type.Is("map[$k]$v")`, `m["y"].Type.Is("chk.T")`, `m["x"].Type.Underlying().Is("struct{$*_}")`,
+	// a constant on the left of a commutative comparison (the loader moves it to the right)
+	`"aa" == m["x"].Text`, `"" != m["y"].Text`, `32 == m["x"].Value.Int()`, `0 != m["y"].Value.Int()`, `8 == m["x"].Type.Size`, `limitC != m["x"].Value.Int()`,
+	`m["x"].Value.Int() >= 31 && m["x"].Value.Int() < limitC`, `m["x"].Text > "aa"`, `m["x"].Text <= m["y"].Text`, `m["x"].Value.Int() > m["y"].Value.Int()`,
+	`m["x"].Type.Size < m["y"].Type.Size`,
+}
+
+// Comparisons with the constant on the LEFT. The loader accepts the commutative ones; what it does with the ordering
+// ones is its business (today: a load error) -- the property only wants source and precompiled form to agree, on the
+// outcome of the load and on every report, for every load of the same precompiled value.
+var lhsOperands = []struct {
+	expr   string
+	consts []string
+}{
+	{`m["x"].Value.Int()`, []string{"0", "3", "31", "32", "33", "40", "-1", "limitC"}},
+	{`m["y"].Value.Int()`, []string{"2", "32", "33"}},
+	{`m["x"].Text`, []string{`"aa"`, `"bb"`, `"cc"`, `""`, `"32"`}},
+	{`m["x"].Line`, []string{"0", "1", "1000", "560"}},
+	{`m["x"].Type.Size`, []string{"0", "4", "8", "16"}},
+}
+
+func (g *gen) lhsCmp(ordering bool) string {
+	o := lhsOperands[g.rng.Intn(len(lhsOperands))]
+	ops := []string{"==", "!="}
+	if ordering {
+		ops = []string{"<", ">", "<=", ">=", "<", ">", "<=", ">=", "==", "!="}
+	}
+	return o.consts[g.rng.Intn(len(o.consts))] + " " + ops[g.rng.Intn(len(ops))] + " " + o.expr
+}
+
+// lhsRulesFile: rules whose filters compare with the constant on the left, alone and inside && / || / !.
+func (g *gen) lhsRulesFile(id int, ordering bool) string {
+	var sb strings.Builder
+	sb.WriteString("package gorules\n\nimport \"github.com/quasilyte/go-ruleguard/dsl\"\n\nconst limitC = 32\n\n")
+	ng := 1 + g.rng.Intn(2)
+	pats := []string{"f($x, $y)", "f($y, $x)", "g($x)", "h($x, $y, $*_)"}
+	for gi := 0; gi < ng; gi++ {
+		fmt.Fprintf(&sb, "func lhs%d_%d(m dsl.Matcher) {\n", id, gi)
+		nr := 2 + g.rng.Intn(3)
+		for ri := 0; ri < nr; ri++ {
+			pat := pats[g.rng.Intn(len(pats))]
+			cmp := g.lhsCmp(ordering)
+			if pat == "g($x)" {
+				cmp = strings.ReplaceAll(cmp, `m["y"]`, `m["x"]`)
+			}
+			switch g.rng.Intn(5) {
+			case 0:
+				cmp = "!(" + cmp + ")"
+			case 1:
+				cmp = cmp + " && " + strings.ReplaceAll(g.lhsCmp(ordering), `m["y"]`, `m["x"]`)
+			case 2:
+				cmp = `m["x"].Const && (` + cmp + ")"
+			}
+			fmt.Fprintf(&sb, "\tm.Match(`%s`).\n\t\tWhere(%s).\n\t\tReport(`lhs %d.%d.%d $x`)\n", pat, cmp, id, gi, ri)
+		}
+		sb.WriteString("}\n\n")
+	}
+	return sb.String()
 }
 
 func (g *gen) where(depth int) string {
@@ -389,6 +446,7 @@ func (g *gen) rulesFile(id int) string {
 	if g.rng.Intn(2) == 0 {
 		sb.WriteString("const limit = 100\n\nvar tag = \"t\"\n\n")
 	}
+	sb.WriteString("const limitC = 40\n\n")
 	ng := 1 + g.rng.Intn(4)
 	pats := []string{"f($x, $y)", "$x + $y", "h($x, $y, $*_)", "$x == $y", "if $x != $y { $*_ }", "$x.m($y)", "f($y, $x)", "$x - $y", "$x * $y"}
 	for gi := 0; gi < ng; gi++ {
@@ -441,6 +499,17 @@ func (g *gen) rulesFile(id int) string {
 		fmt.Fprintf(&sb, "\tm.Match(`g($x)`).Where(isNum(m[\"x\"]) && m[\"x\"].Const).Report(`num %d`)\n", gi)
 		sb.WriteString("}\n\n")
 	}
+	// Rules that accept nodes other files' rules accept too: only the first accepting rule of an engine reports, so the
+	// order in which loads merge their rules is observable whenever two such files meet in one engine.
+	fmt.Fprintf(&sb, "func overlap%d(m dsl.Matcher) {\n", id)
+	fmt.Fprintf(&sb, "\tm.Match(`f($x, $y)`, `g($x)`).Report(`file %d: call with $x`)\n", id)
+	if g.rng.Intn(2) == 0 {
+		fmt.Fprintf(&sb, "\tm.Match(`$x + $y`, `$x - $y`, `$x == $y`).Where(m[\"x\"].Pure).Report(`file %d: binary $x`)\n", id)
+	}
+	if g.rng.Intn(2) == 0 {
+		fmt.Fprintf(&sb, "\tm.MatchComment(`TODO`).Report(`file %d: todo`)\n", id)
+	}
+	sb.WriteString("}\n\n")
 	return sb.String()
 }
 
@@ -496,7 +565,28 @@ func run(p *int, s string, e error, t chk.T) int {
 		g(0)
 	}
 	fmt.Println(local)
+	cmpOperands(1, 2, 3)
 	return local
+}
+
+func cmpOperands(aa, bb, cc int) {
+	f(31, 32)
+	f(32, 33)
+	f(33, 2)
+	f(40, 3)
+	f(0, -1)
+	f(3, 40)
+	f(aa, bb)
+	f(bb, cc)
+	f(cc, aa)
+	f(int8(1), int64(2))
+	f(int64(31), int32(32))
+	g(31)
+	g(32)
+	g(33)
+	g(bb)
+	h(32, 31)
+	h(cc, 32, 1)
 }
 
 func a0() int { return 0 }
@@ -518,6 +608,7 @@ type Case struct {
 	RulesPath string      `json:"rules_path,omitempty"`
 	Ops       []int       `json:"ops"`
 	NGroups   int         `json:"ngroups"`
+	MayReject bool        `json:"may_reject,omitempty"`
 }
 
 func collectOps(f *ir.File) []int {
@@ -581,6 +672,100 @@ func convertRules(path string, src []byte) (*ir.File, error) {
 	return irconv.ConvertFile(&irconv.Context{Pkg: pkg, Types: info, Fset: fset, Src: src}, f)
 }
 
+// histories: sequences of loads into one engine. Generated files share the target and accept common nodes (overlap
+// groups), so the merge order is observable; every shape of history is produced for every run, the files are drawn at random.
+func (g *gen) histories(batch []Case, targDir string, n int) []History {
+	var gens, lhs, bundles, fixtures []Case
+	for _, c := range batch {
+		if c.RulesPath == "" || c.PrintErr != "" || c.ParseErr != "" || c.TypeErr != "" || c.Text == "" {
+			continue
+		}
+		switch {
+		case c.Kind == "fixture":
+			fixtures = append(fixtures, c)
+		case strings.HasPrefix(c.Name, "bundle"):
+			bundles = append(bundles, c)
+		case strings.HasPrefix(c.Name, "lhs"):
+			lhs = append(lhs, c)
+		default:
+			gens = append(gens, c)
+		}
+	}
+	if len(gens) < 3 {
+		return nil
+	}
+	pick := func(pool []Case, not ...int) Case {
+		for {
+			c := pool[g.rng.Intn(len(pool))]
+			ok := true
+			for _, x := range not {
+				if x == c.ID {
+					ok = false
+				}
+			}
+			if ok {
+				return c
+			}
+		}
+	}
+	shapes := [][]string{{"ir", "ir"}, {"src", "ir"}, {"ir", "src"}, {"src", "ir", "ir"}, {"ir", "src", "ir"}, {"src", "src", "ir"}, {"ir", "ir", "src"}}
+	var out []History
+	add := func(steps []HistStep, filtered bool, dir string) {
+		out = append(out, History{ID: -(len(out) + 1), Steps: steps, Filtered: filtered, TargetDir: dir})
+	}
+	for k := 0; len(out) < n; k++ {
+		switch k % 12 {
+		default: // distinct generated files, every shape in turn
+			shape := shapes[k%len(shapes)]
+			var steps []HistStep
+			var used []int
+			for _, mode := range shape {
+				c := pick(gens, used...)
+				used = append(used, c.ID)
+				steps = append(steps, HistStep{c.ID, mode})
+			}
+			add(steps, k%5 == 4, targDir)
+		case 7: // the same file twice: a redefinition error on every path
+			c := pick(gens)
+			modes := [][]string{{"ir", "ir"}, {"src", "ir"}, {"ir", "src"}}[(k/12)%3]
+			add([]HistStep{{c.ID, modes[0]}, {c.ID, modes[1]}}, false, targDir)
+		case 8: // left-hand constants next to an ordinary file
+			if len(lhs) > 0 {
+				a, b := pick(lhs), pick(gens)
+				if (k/12)%2 == 0 {
+					add([]HistStep{{b.ID, "src"}, {a.ID, "ir"}}, false, targDir)
+				} else {
+					add([]HistStep{{a.ID, "ir"}, {b.ID, "ir"}}, false, targDir)
+				}
+			}
+		case 9: // a file with bundle imports
+			if len(bundles) > 0 {
+				a, b := pick(bundles), pick(gens)
+				if (k/12)%2 == 0 {
+					add([]HistStep{{a.ID, "ir"}, {b.ID, "src"}}, (k/12)%4 == 2, targDir)
+				} else {
+					add([]HistStep{{b.ID, "src"}, {a.ID, "ir"}}, (k/12)%4 == 3, targDir)
+				}
+			}
+		case 10, 11: // fixture rules files on the fixture's own target
+			if len(fixtures) > 1 {
+				a := pick(fixtures)
+				b := pick(fixtures, a.ID)
+				modes := [][]string{{"ir", "ir"}, {"src", "ir"}, {"ir", "src"}}[(k/12+k)%3]
+				dir := filepath.Dir(a.RulesPath)
+				if k%2 == 0 {
+					dir = filepath.Dir(b.RulesPath)
+				}
+				add([]HistStep{{a.ID, modes[0]}, {b.ID, modes[1]}}, false, dir)
+			}
+		}
+		if k > 20*n {
+			break
+		}
+	}
+	return out
+}
+
 func main() {
 	seed := flag.Int64("seed", 1, "PRNG seed")
 	nrand := flag.Int("n", 150, "random IR values")
@@ -588,6 +773,7 @@ func main() {
 	tmp := flag.String("tmp", "", "scratch directory")
 	gendir := flag.String("gendir", "", "directory for the generated batch program")
 	repo := flag.String("repo", "/repo", "repository root (fixture rules files)")
+	nhist := flag.Int("nhist", 24, "load histories")
 	flag.Parse()
 	if *tmp == "" || *gendir == "" {
 		fmt.Fprintln(os.Stderr, "need -tmp and -gendir")
@@ -610,6 +796,7 @@ func main() {
 		f          *ir.File
 		rulesPath  string
 		convErr    string
+		mayReject  bool
 	}
 	var items []item
 	for i := 0; i < *nrand; i++ {
@@ -651,6 +838,21 @@ func main() {
 		}
 		items = append(items, it)
 	}
+	// rules files comparing with the constant on the left: the first has commutative comparisons only
+	nlhs := 2 + *nrules/6
+	for i := 0; i < nlhs; i++ {
+		p := filepath.Join(rulesDir, fmt.Sprintf("lhs%d.go", i))
+		src := g.lhsRulesFile(i, i > 0)
+		os.WriteFile(p, []byte(src), 0o644)
+		f, err := convertRules(p, []byte(src))
+		it := item{kind: "generated", name: fmt.Sprintf("lhs%d", i), rulesPath: p, mayReject: i > 0}
+		if err != nil {
+			it.convErr = err.Error()
+		} else {
+			it.f = f
+		}
+		items = append(items, it)
+	}
 	// rules files with bundle imports (prefix != package path, empty prefix)
 	bundleSrcs := []string{
 		"package gorules\n\nimport (\n\t\"github.com/quasilyte/go-ruleguard/dsl\"\n\trb1 \"example.com/rb1\"\n)\n\nfunc init() {\n\tdsl.ImportRules(\"pfx\", rb1.Bundle)\n}\n\nfunc local(m dsl.Matcher) {\n\tm.Match(`g($x)`).Report(`local $x`)\n}\n",
@@ -675,7 +877,7 @@ func main() {
 	enc := json.NewEncoder(os.Stdout)
 	var batch []Case
 	for id, it := range items {
-		c := Case{ID: id, Kind: it.kind, Name: it.name, RulesPath: it.rulesPath, ConvErr: it.convErr}
+		c := Case{ID: id, Kind: it.kind, Name: it.name, RulesPath: it.rulesPath, ConvErr: it.convErr, MayReject: it.mayReject}
 		if it.f == nil {
 			enc.Encode(c)
 			continue
@@ -711,7 +913,11 @@ func main() {
 		enc.Encode(c)
 		batch = append(batch, c)
 	}
-	if err := writeBatch(*gendir, batch, targDir, *repo); err != nil {
+	histories := g.histories(batch, targDir, *nhist)
+	for _, h := range histories {
+		enc.Encode(map[string]interface{}{"history": h})
+	}
+	if err := writeBatch(*gendir, batch, histories, targDir, *repo); err != nil {
 		fmt.Fprintln(os.Stderr, "batch:", err)
 		os.Exit(3)
 	}
